@@ -31,8 +31,14 @@ DIVLIKE = ("div_euclid", "rem_euclid", "ilog", "ilog2", "ilog10", "isqrt", "div"
 
 CORE_RE = re.compile(r"read-fonts/src/(font_data|read|array|offset|offset_array|table_ref)\.rs$")
 
+LOOPS = ("loop:",)
+
 SCOPES = {
     # rule id -> (crates, kinds, description)
+    "C01-j": (("font_types", "read_fonts"), LOOPS,
+              "hand-written font-types / read-fonts code: natural loops (termination pacing)"),
+    "C02-i": (("skrifa", "incremental_font_transfer", "shared_brotli_patch_decoder"), LOOPS,
+              "skrifa / incremental-font-transfer / brotli wrapper: natural loops (termination pacing)"),
     "C01-h": (("font_types", "read_fonts"), ALWAYS,
               "hand-written font-types / read-fonts code: indexing, slicing, split/copy and division sites"),
     "C02-d": (("skrifa", "incremental_font_transfer", "shared_brotli_patch_decoder"), ALWAYS,
@@ -67,6 +73,8 @@ def site_sig(site):
     b, bb = site["body"], site["bb"]
     t = b.blocks[bb].term
     kind = site["kind"]
+    if kind.startswith("loop:"):
+        return kind
     if t.kind == "assert":
         iv = site["iv"]
         ops = t.d[4]
@@ -77,6 +85,8 @@ def site_sig(site):
 def classify_kind(site):
     """map zone.py kinds to census kinds"""
     k = site["kind"]
+    if k.startswith("loop:"):
+        return k
     b, bb = site["body"], site["bb"]
     t = b.blocks[bb].term
     if k.startswith("call:panic") and t.kind == "call" and (("debug_assert" in (t.macro or "")) or ("debug_assert" in (t.outer_macro or ""))):
@@ -89,6 +99,9 @@ USE_ARGSUM = os.environ.get("FV_NO_ARGSUM") is None
 
 def collect(facts, crates, kinds):
     """-> (sites, n_functions): every site of the requested kinds in hand-written code of `crates`"""
+    if kinds == LOOPS:
+        from ..loops import collect_loops
+        return collect_loops(facts, crates)
     from ..intervals import register_adts
     from .. import counters
     from .. import fieldinv
@@ -147,9 +160,17 @@ def census(facts, rid, cfg):
 
 def run_sites(chk, facts, rid, cfg):
     crates, kinds, what = SCOPES[rid]
-    chk.rule(rid, f"T-ZONE census: {what}: every site is discharged by interval/guard analysis, or tolerated by "
-                  f"rules/site_baseline.json (confirmed with a reason, or untriaged = existed on the pinned tree and is "
-                  f"not claimed), or a known finding; a new unproven site is a violation")
+    if kinds == LOOPS:
+        chk.rule(rid, f"T-LOOP census: {what}: every natural loop is paced (each trip advances a finite / caller-supplied / "
+                      f"repo-defined iterator, or moves a counter by a constant towards a loop-invariant bound that ends the "
+                      f"loop), or tolerated by rules/site_baseline.json (confirmed with a reason, or untriaged = existed on the "
+                      f"pinned tree and is not claimed); a new unpaced loop, or a loop that lost its pacing, is a violation")
+        chk.assume("A-REPO-ITER: a loop paced by a repo-defined iterator terminates if that iterator is finite; finiteness of the "
+                   "sequence is not decided here (its `next` is subject to the progress rule C01-i / C02-h)")
+    else:
+        chk.rule(rid, f"T-ZONE census: {what}: every site is discharged by interval/guard analysis, or tolerated by "
+                      f"rules/site_baseline.json (confirmed with a reason, or untriaged = existed on the pinned tree and is "
+                      f"not claimed), or a known finding; a new unproven site is a violation")
     base = load_baseline().get(rid)
     if base is None:
         chk.finding(rid, "anchor|baseline", f"rules/site_baseline.json has no section {rid} (fail closed)")
@@ -216,8 +237,11 @@ def run_sites(chk, facts, rid, cfg):
                      f"a bound or ordering it used to establish makes the site unprovable here")
         chk.ob(rid, f"{key}: {len(ss)} unproven site(s) at line(s) {lines}, baseline tolerates {allowed}", False,
                key=f"site|{key}", file=b.file, line=lines[-1], fn=b.path,
-               detail=f"a panic-capable operation that the analysis cannot prove safe for every input was added to code "
-                      f"that handles untrusted data, or a guard that made it provable was removed ({whys}){extra}")
+               detail=(f"a loop without a recognised reason to terminate was added, or an existing loop lost its pacing (the "
+                       f"step no longer happens on every trip, the bound changes inside the loop, or the iterator is not "
+                       f"finite by construction): {whys}" if kinds == LOOPS else
+                       f"a panic-capable operation that the analysis cannot prove safe for every input was added to code "
+                       f"that handles untrusted data, or a guard that made it provable was removed ({whys}){extra}"))
     if any(s.get("iv") is not None and s["iv"].used_steps_assumption for s in sites):
         from ..intervals import A_STEPS
         chk.assume(A_STEPS)
@@ -321,6 +345,26 @@ def run_engine_fixture(chk, rid="engine-fixture"):
                        detail="a standard safe idiom is no longer proved: " + "; ".join(s["why"] for s in bad)[:200])
         chk.floor(rid, "traps", nb, 35)
         chk.floor(rid, "safe idioms", ng, 22)
+        # the loop census on its own fixtures
+        from ..loops import collect_loops
+        lsites, _ = collect_loops(facts, [facts.crates[0]])
+        by_fn = {}
+        for s in lsites:
+            by_fn.setdefault(s["body"].path.split("::")[-1], []).append(s)
+        nlb = nlg = 0
+        for name, ss in sorted(by_fn.items()):
+            if name.startswith("loopbad_"):
+                nlb += 1
+                chk.ob(rid, f"loop trap {name}: {sum(1 for s in ss if not s['ok'])} unpaced of {len(ss)} loop(s)", any(not s["ok"] for s in ss),
+                       key=f"looptrap|{name}", file=ss[0]["body"].file, line=ss[0]["line"], fn=ss[0]["body"].path,
+                       detail="the loop census accepted a loop that does not terminate for some input (a defect of the checker)")
+            elif name.startswith("loopgood_"):
+                nlg += 1
+                chk.ob(rid, f"loop idiom {name}: {sum(1 for s in ss if s['ok'])} of {len(ss)} loop(s) paced", all(s["ok"] for s in ss),
+                       key=f"loopidiom|{name}", file=ss[0]["body"].file, line=ss[0]["line"], fn=ss[0]["body"].path,
+                       detail="a standard terminating loop is no longer recognised: " + "; ".join(s["why"] for s in ss if not s["ok"])[:200])
+        chk.floor(rid, "loop traps", nlb, 7)
+        chk.floor(rid, "loop idioms", nlg, 4)
     finally:
         if "saved_pi" in locals():
             intervals.PARAM_INFO = saved_pi
